@@ -205,6 +205,7 @@ func ruleC20(w *World, r *Report) {
 	k.mapRangeRule("C20.maprange", fns)
 	// ---- process-global state
 	k.globalWriteRule("C20.global", fns)
+	k.keeperMemRule("C20.global.keeper", fns)
 	r.MinInstances("C20.", 8)
 }
 
